@@ -414,30 +414,126 @@ fn run_ub(rate: f32, rng: &mut Rng) -> Result<Option<String>, String> {
 // ------------------------------------------------------------------------------------------------
 // congress
 
+/// the (key id, value id) pairs an entry yields from `sample_group()`, in the order it yields them
+type Pairs = Vec<(u32, u32)>;
+
+/// group identity according to the documentation of `Entry::sample_group` ("the order of (key, value)
+/// pairs in the group doesn't matter"): the SET of pairs = the sorted list. Computed here, never taken
+/// from the implementation.
+fn true_key(p: &Pairs) -> Pairs {
+    let mut k = p.clone();
+    k.sort();
+    k
+}
+
+fn has_dup_key(p: &Pairs) -> bool {
+    let k = true_key(p);
+    k.windows(2).any(|w| w[0].0 == w[1].0)
+}
+
+fn enc_pairs(p: &Pairs) -> String {
+    if p.is_empty() { "_".into() } else { p.iter().map(|(k, v)| format!("{k}.{v}")).collect::<Vec<_>>().join("+") }
+}
+
+fn dec_pairs(s: &str) -> Option<Pairs> {
+    if s == "_" {
+        return Some(vec![]);
+    }
+    s.split('+').map(|p| p.split_once('.').and_then(|(k, v)| Some((k.parse().ok()?, v.parse().ok()?)))).collect()
+}
+
+/// how the sampler is constructed (every public way)
+#[derive(Clone, Copy, Debug, PartialEq)]
+enum Ctor {
+    /// `r`: builder, interval 1 day, `build_with_rng(scripted)`, clock frozen by the hook
+    Rng,
+    /// `c`: builder, interval 1000 days, `build_with_rng(scripted)`, clock NOT frozen: the first `format`
+    /// call ends the (empty) zeroth interval through the real clock path
+    Clock,
+    /// `i<secs>`: builder, that interval, `build_with_rng(scripted)`, clock frozen
+    Interval(u32),
+    /// `b`: builder, `build()` (thread RNG: decisions are random), clock frozen
+    Build,
+    /// `e`: `format.sample_by_congress_at_fixed_entries_per_second(target)` (15 s interval, 15·target per
+    /// interval, thread RNG, default validation), clock frozen
+    Ext,
+}
+
+#[derive(Clone, Debug, PartialEq)]
+struct CgCfg {
+    /// `target_entries_per_interval` (for `Ctor::Ext`: entries per second)
+    target: u32,
+    /// `validate_groups(..)`; `None` = not called (default: `cfg!(debug_assertions)`)
+    validate: Option<bool>,
+    ctor: Ctor,
+}
+
+impl CgCfg {
+    fn effective_target(&self) -> u32 {
+        if self.ctor == Ctor::Ext { self.target * 15 } else { self.target }
+    }
+    fn effective_validate(&self) -> bool {
+        if self.ctor == Ctor::Ext { cfg!(debug_assertions) } else { self.validate.unwrap_or(cfg!(debug_assertions)) }
+    }
+    fn scripted(&self) -> bool {
+        !matches!(self.ctor, Ctor::Build | Ctor::Ext)
+    }
+    fn encode(&self) -> String {
+        let v = match self.validate { None => "d", Some(false) => "0", Some(true) => "1" };
+        let c = match self.ctor {
+            Ctor::Rng => "r".to_string(),
+            Ctor::Clock => "c".to_string(),
+            Ctor::Interval(s) => format!("i{s}"),
+            Ctor::Build => "b".to_string(),
+            Ctor::Ext => "e".to_string(),
+        };
+        format!("{}/{v}/{c}", self.target)
+    }
+    fn decode(s: &str) -> Option<CgCfg> {
+        let p: Vec<&str> = s.split('/').collect();
+        if p.len() != 3 {
+            return None;
+        }
+        let validate = match p[1] { "d" => None, "0" => Some(false), "1" => Some(true), _ => return None };
+        let ctor = match p[2] {
+            "r" => Ctor::Rng,
+            "c" => Ctor::Clock,
+            "b" => Ctor::Build,
+            "e" => Ctor::Ext,
+            x => Ctor::Interval(x.strip_prefix('i')?.parse().ok()?),
+        };
+        let target: u32 = p[0].parse().ok()?;
+        if target == 0 || (ctor == Ctor::Ext && target > 10_000_000) {
+            return None;
+        }
+        Some(CgCfg { target, validate, ctor })
+    }
+}
+
 #[derive(Clone, Debug, PartialEq)]
 enum CgOp {
-    One(u32, u32),   // gid, word32
-    Adapt(u32, u32), // gid, d
-    Bulk(u32, u32),  // gid, count
+    One(Pairs, u32),   // pairs as yielded, word32
+    Adapt(Pairs, u32), // pairs as yielded, d
+    Bulk(Pairs, u32),  // pairs as yielded, count
     End,
 }
 
-fn enc_cg(target: u32, ops: &[CgOp]) -> String {
-    let mut s = format!("cg {target}");
+fn enc_cg(cfg: &CgCfg, ops: &[CgOp]) -> String {
+    let mut s = format!("cg {}", cfg.encode());
     for o in ops {
         s.push(' ');
         s.push_str(&match o {
-            CgOp::One(g, w) => format!("o{g}:{w:08x}"),
-            CgOp::Adapt(g, d) => format!("a{g}:{d}"),
-            CgOp::Bulk(g, c) => format!("n{g}:{c}"),
+            CgOp::One(g, w) => format!("o{}:{w:08x}", enc_pairs(g)),
+            CgOp::Adapt(g, d) => format!("a{}:{d}", enc_pairs(g)),
+            CgOp::Bulk(g, c) => format!("n{}:{c}", enc_pairs(g)),
             CgOp::End => "E".to_string(),
         });
     }
     s
 }
 
-fn dec_cg(parts: &[&str]) -> Option<(u32, Vec<CgOp>)> {
-    let target = parts.first()?.parse().ok()?;
+fn dec_cg(parts: &[&str]) -> Option<(CgCfg, Vec<CgOp>)> {
+    let cfg = CgCfg::decode(parts.first()?)?;
     let mut ops = vec![];
     for p in &parts[1..] {
         let (k, body) = p.split_at(1);
@@ -445,20 +541,20 @@ fn dec_cg(parts: &[&str]) -> Option<(u32, Vec<CgOp>)> {
             "E" => CgOp::End,
             "o" => {
                 let (g, w) = body.split_once(':')?;
-                CgOp::One(g.parse().ok()?, u32::from_str_radix(w, 16).ok()?)
+                CgOp::One(dec_pairs(g)?, u32::from_str_radix(w, 16).ok()?)
             }
             "a" => {
                 let (g, d) = body.split_once(':')?;
-                CgOp::Adapt(g.parse().ok()?, d.parse().ok()?)
+                CgOp::Adapt(dec_pairs(g)?, d.parse().ok()?)
             }
             "n" => {
                 let (g, c) = body.split_once(':')?;
-                CgOp::Bulk(g.parse().ok()?, c.parse().ok()?)
+                CgOp::Bulk(dec_pairs(g)?, c.parse().ok()?)
             }
             _ => return None,
         });
     }
-    Some((target, ops))
+    Some((cfg, ops))
 }
 
 struct CgRun {
@@ -470,152 +566,254 @@ struct CgRun {
     sampled_intervals: u64,
     draws_skipped_at_rate_one: u64,
     max_groups: usize,
+    panics: u64,
+    reordered_entries: u64,
 }
 
-fn group_entry(gid: u32, flip: bool) -> GenEntry {
-    // two-element group; the element order alternates (the sampler sorts the elements)
-    let mut g = vec![("a".to_string(), format!("g{gid}")), ("b".to_string(), "k".to_string())];
-    if flip {
-        g.reverse();
-    }
-    GenEntry { items: vec![], sample_group: g }
+fn group_entry(p: &Pairs) -> GenEntry {
+    GenEntry { items: vec![], sample_group: p.iter().map(|(k, v)| (format!("k{k:02}"), format!("v{v:03}"))).collect() }
 }
 
-fn gid_of(group: &[(String, String)]) -> Option<u32> {
-    group.iter().find(|(k, _)| k == "a")?.1.strip_prefix('g')?.parse().ok()
+/// the pairs of a group reported by the implementation, as ids, SORTED (true identity)
+fn key_of(group: &[(String, String)]) -> Option<Pairs> {
+    let mut k: Pairs = group
+        .iter()
+        .map(|(k, v)| Some((k.strip_prefix('k')?.parse().ok()?, v.strip_prefix('v')?.parse().ok()?)))
+        .collect::<Option<_>>()?;
+    k.sort();
+    Some(k)
 }
 
-fn run_cg(target: u32, ops: &[CgOp]) -> Result<CgRun, String> {
+fn run_cg(cfg: &CgCfg, ops: &[CgOp]) -> Result<CgRun, String> {
+    use metrique_writer::sample::SampledFormatExt;
     catch(|| {
         let rec = Recorder::default();
         let rng = CellRng::default();
-        let mut s: CongressSample<Recorder, CellRng> = CongressSampleBuilder::default()
-            .interval(Duration::from_secs(86400))
-            .target_entries_per_interval(target)
-            .build_with_rng(rec.clone(), rng.clone());
-        s.verif_freeze_clock();
-        let mut request = format!("cg {target}");
-        let mut answer: Vec<String> = vec![];
-        let mut oracle: Option<String> = None;
-        let mut rates: std::collections::BTreeMap<u32, f32> = Default::default();
-        let mut interval_total: u64 = 0;
-        let mut flip = false;
-        let mut run = CgRun { request: String::new(), answer: String::new(), oracle: None, sampled_intervals: 0, draws_skipped_at_rate_one: 0, max_groups: 0 };
-        let fail = |what: String, oracle: &mut Option<String>| {
-            if oracle.is_none() {
-                *oracle = Some(what);
+        let builder = || {
+            let mut b = CongressSampleBuilder::default().target_entries_per_interval(cfg.target);
+            if let Some(v) = cfg.validate {
+                b = b.validate_groups(v);
             }
+            b
         };
-        for (i, op) in ops.iter().enumerate() {
-            match op {
-                CgOp::One(..) | CgOp::Adapt(..) => {
-                    let (gid, word) = match op {
-                        CgOp::One(g, w) => (*g, *w),
-                        CgOp::Adapt(g, d) => {
-                            let r = rates.get(g).copied().unwrap_or(1.0);
-                            let base = ((r as f64) * 16777216.0).floor() as i64 + *d as i64 - 1;
-                            (*g, (base.clamp(0, 0xff_ffff) as u32) << 8 | 0x5a)
-                        }
-                        _ => unreachable!(),
-                    };
-                    let rate = rates.get(&gid).copied().unwrap_or(1.0);
-                    rng.word.set((word as u64) << 32);
-                    let d0 = rng.draws.get();
-                    rec.sampled_calls.borrow_mut().clear();
-                    flip = !flip;
-                    s.format(&group_entry(gid, flip), &mut std::io::sink()).expect("format");
-                    interval_total += 1;
-                    let calls = rec.sampled_calls.borrow().clone();
-                    if rng.draws.get() == d0 {
-                        run.draws_skipped_at_rate_one += 1;
+        match cfg.ctor {
+            Ctor::Rng => {
+                let mut s = builder().interval(Duration::from_secs(86400)).build_with_rng(rec.clone(), rng.clone());
+                s.verif_freeze_clock();
+                drive_cg(cfg, ops, s, &rec, &rng)
+            }
+            Ctor::Clock => {
+                let s = builder().interval(Duration::from_secs(86400 * 1000)).build_with_rng(rec.clone(), rng.clone());
+                drive_cg(cfg, ops, s, &rec, &rng)
+            }
+            Ctor::Interval(secs) => {
+                let mut s = builder().interval(Duration::from_secs(secs.max(1) as u64)).build_with_rng(rec.clone(), rng.clone());
+                s.verif_freeze_clock();
+                drive_cg(cfg, ops, s, &rec, &rng)
+            }
+            Ctor::Build => {
+                let mut s = builder().build(rec.clone());
+                s.verif_freeze_clock();
+                drive_cg(cfg, ops, s, &rec, &rng)
+            }
+            Ctor::Ext => {
+                let mut s = rec.clone().sample_by_congress_at_fixed_entries_per_second(cfg.target);
+                s.verif_freeze_clock();
+                drive_cg(cfg, ops, s, &rec, &rng)
+            }
+        }
+    })
+}
+
+fn drive_cg<R: rand::RngCore>(cfg: &CgCfg, ops: &[CgOp], mut s: CongressSample<Recorder, R>, rec: &Recorder, rng: &CellRng) -> CgRun {
+    use std::collections::BTreeMap;
+    let target = cfg.effective_target();
+    let validate = cfg.effective_validate();
+    let scripted = cfg.scripted();
+    let mut request = format!("cg {target}/{}", validate as u8);
+    let mut answer: Vec<String> = vec![];
+    let mut oracle: Option<String> = None;
+    // everything below is keyed by the TRUE group (sorted pairs)
+    let mut rates: BTreeMap<Pairs, f32> = BTreeMap::new();
+    let mut volume: BTreeMap<Pairs, u64> = BTreeMap::new(); // this interval
+    let mut life: BTreeMap<Pairs, (u64, u64)> = BTreeMap::new(); // (min, max) non-zero interval volume while tracked
+    let mut interval_total: u64 = 0;
+    let mut run = CgRun { request: String::new(), answer: String::new(), oracle: None, sampled_intervals: 0, draws_skipped_at_rate_one: 0, max_groups: 0, panics: 0, reordered_entries: 0 };
+    let fail = |what: String, oracle: &mut Option<String>| {
+        if oracle.is_none() {
+            *oracle = Some(what);
+        }
+    };
+    for (i, op) in ops.iter().enumerate() {
+        match op {
+            CgOp::One(..) | CgOp::Adapt(..) | CgOp::Bulk(..) => {
+                let (pairs, word, count) = match op {
+                    CgOp::One(g, w) => (g, *w, 1u32),
+                    CgOp::Adapt(g, d) => {
+                        let r = rates.get(&true_key(g)).copied().unwrap_or(1.0);
+                        let base = ((r as f64) * 16777216.0).floor() as i64 + *d as i64 - 1;
+                        (g, (base.clamp(0, 0xff_ffff) as u32) << 8 | 0x5a, 1)
                     }
+                    CgOp::Bulk(g, c) => (g, 0u32, *c),
+                    CgOp::End => unreachable!(),
+                };
+                let bulk = matches!(op, CgOp::Bulk(..));
+                let key = true_key(pairs);
+                if *pairs != key {
+                    run.reordered_entries += count as u64;
+                }
+                let rate = rates.get(&key).copied().unwrap_or(1.0);
+                let tok_pairs = enc_pairs(pairs);
+                let must_panic = validate && has_dup_key(pairs);
+                rng.word.set((word as u64) << 32);
+                let d0 = rng.draws.get();
+                rec.sampled_calls.borrow_mut().clear();
+                let e = group_entry(pairs);
+                let mut panicked: Option<String> = None;
+                let mut done = 0u32;
+                for _ in 0..count {
+                    match catch(|| s.format(&e, &mut std::io::sink())) {
+                        Ok(r) => {
+                            r.expect("format");
+                            done += 1;
+                        }
+                        Err(p) => {
+                            panicked = Some(p);
+                            break;
+                        }
+                    }
+                }
+                if bulk || !scripted {
+                    request.push_str(&format!(" n{tok_pairs}:{count}"));
+                } else {
+                    request.push_str(&format!(" o{tok_pairs}:{word:08x}"));
+                }
+                if let Some(p) = &panicked {
+                    run.panics += 1;
+                    if !must_panic {
+                        fail(format!("op {i}: format panicked for group {tok_pairs} (validate_groups={validate}): {p}"), &mut oracle);
+                    } else if !p.contains("duplicate group element name") {
+                        fail(format!("op {i}: duplicate key with validate_groups on: unexpected panic message {p}"), &mut oracle);
+                    }
+                    if !rec.sampled_calls.borrow().is_empty() || done != 0 {
+                        fail(format!("op {i}: an entry with a duplicate key was passed on before the assertion fired"), &mut oracle);
+                    }
+                    answer.push("P".into());
+                    continue;
+                }
+                if must_panic {
+                    fail(format!("op {i}: group {tok_pairs} has a duplicate key and validate_groups is on, but format did not panic"), &mut oracle);
+                }
+                interval_total += count as u64;
+                *volume.entry(key.clone()).or_insert(0) += count as u64;
+                let calls = rec.sampled_calls.borrow().clone();
+                if rng.draws.get() == d0 && !bulk && scripted {
+                    run.draws_skipped_at_rate_one += 1;
+                }
+                if let Some(r) = calls.iter().find(|r| r.to_bits() != rate.to_bits()) {
+                    fail(format!("op {i}: inner format got rate {r:e} for an entry of group {}, whose rate is {rate:e} (spelled {tok_pairs})", enc_pairs(&key)), &mut oracle);
+                }
+                if scripted {
+                    // draw 0 (bulk) is <= every rate
                     let want = rate == 1.0 || draw_le_rate(draw32(word), rate);
-                    if calls.len() > 1 || want != (calls.len() == 1) {
-                        fail(format!("op {i}: group g{gid} rate {rate:e} draw {}/2^24: entry {} but should be {}", draw32(word), if calls.is_empty() { "dropped" } else { "emitted" }, if want { "emitted" } else { "dropped" }), &mut oracle);
+                    let want_n = if want { count as usize } else { 0 };
+                    if calls.len() != want_n {
+                        fail(format!("op {i}: group {tok_pairs} rate {rate:e} draw {}/2^24: {} of {count} entries emitted, should be {want_n}", draw32(word), calls.len()), &mut oracle);
                     }
-                    if let Some(r) = calls.first() {
-                        if r.to_bits() != rate.to_bits() {
-                            fail(format!("op {i}: inner format got rate {r:e}, the group's rate is {rate:e}"), &mut oracle);
-                        }
-                    }
-                    request.push_str(&format!(" o{gid}:{word:08x}"));
-                    answer.push(match calls.first() {
+                } else if calls.len() > count as usize || (rate == 1.0 && calls.len() != count as usize) {
+                    fail(format!("op {i}: group {tok_pairs} rate {rate:e}: {} of {count} entries emitted", calls.len()), &mut oracle);
+                }
+                answer.push(if bulk || !scripted {
+                    "b".into()
+                } else {
+                    match calls.first() {
                         Some(r) => format!("e{}", f32_bits(*r)),
                         None => format!("d{}", f32_bits(rate)),
-                    });
+                    }
+                });
+            }
+            CgOp::End => {
+                if s.verif_current_observed() as u64 != interval_total {
+                    fail(format!("op {i}: sampler counted {} entries in the interval, {} were formatted", s.verif_current_observed(), interval_total), &mut oracle);
                 }
-                CgOp::Bulk(gid, count) => {
-                    rng.word.set(0);
-                    rec.sampled_calls.borrow_mut().clear();
-                    let e = group_entry(*gid, false);
-                    for _ in 0..*count {
-                        s.format(&e, &mut std::io::sink()).expect("format");
+                s.verif_end_interval();
+                let gr = s.verif_group_rates();
+                let mut order = vec![];
+                let mut rows: Vec<(Pairs, f32, f32)> = vec![];
+                for (g, rate, avg, _cur) in &gr {
+                    let key = key_of(g).expect("group ids");
+                    order.push(enc_pairs(&key));
+                    if rows.iter().any(|r| r.0 == key) {
+                        fail(format!("op {i}: group {} is tracked as more than one group (as yielded: {:?}): the order of pairs must not matter", enc_pairs(&key), g), &mut oracle);
+                        continue;
                     }
-                    interval_total += *count as u64;
-                    // draw 0 is <= every rate: every entry must be emitted, with the group's rate
-                    let rate = rates.get(gid).copied().unwrap_or(1.0);
-                    let calls = rec.sampled_calls.borrow();
-                    if calls.len() != *count as usize || calls.iter().any(|r| r.to_bits() != rate.to_bits()) {
-                        fail(format!("op {i}: {count} entries with draw 0 for group g{gid} (rate {rate:e}): {} emitted, rates {:?}", calls.len(), calls.iter().take(3).collect::<Vec<_>>()), &mut oracle);
-                    }
-                    request.push_str(&format!(" n{gid}:{count}"));
-                    answer.push("b".into());
+                    rows.push((key, *rate, *avg));
                 }
-                CgOp::End => {
-                    if s.verif_current_observed() as u64 != interval_total {
-                        fail(format!("op {i}: sampler counted {} entries in the interval, {} were formatted", s.verif_current_observed(), interval_total), &mut oracle);
+                run.max_groups = run.max_groups.max(rows.len());
+                // true volumes: every tracked group's average lies between the smallest and the largest
+                // non-zero interval volume of the TRUE group while it has been tracked
+                life.retain(|k, _| rows.iter().any(|r| r.0 == *k));
+                for (k, v) in &volume {
+                    if *v > 0 {
+                        let e = life.entry(k.clone()).or_insert((*v, *v));
+                        e.0 = e.0.min(*v);
+                        e.1 = e.1.max(*v);
                     }
-                    s.verif_end_interval();
-                    let gr = s.verif_group_rates();
-                    let mut order = vec![];
-                    let mut rows: Vec<(u32, f32, f32)> = vec![];
-                    for (g, rate, avg, _cur) in &gr {
-                        let gid = gid_of(g).expect("group id");
-                        order.push(gid.to_string());
-                        rows.push((gid, *rate, *avg));
+                }
+                for (k, v) in &volume {
+                    if *v > 0 && !rows.iter().any(|r| r.0 == *k) {
+                        fail(format!("op {i}: group {} had {v} entries in the interval but is not tracked", enc_pairs(k)), &mut oracle);
                     }
-                    run.max_groups = run.max_groups.max(rows.len());
-                    // property oracle on the implementation's rates
-                    let t = target as f64;
-                    for (gid, rate, _) in &rows {
-                        if !(*rate > 0.0 && *rate <= 1.0) {
-                            fail(format!("op {i}: rate of g{gid} is {rate:e}, outside (0,1]"), &mut oracle);
+                }
+                for (k, _, avg) in &rows {
+                    if let Some((lo, hi)) = life.get(k) {
+                        let a = *avg as f64;
+                        if a < *lo as f64 * (1.0 - 1e-4) || a > *hi as f64 * (1.0 + 1e-4) {
+                            fail(format!("op {i}: average volume {a} of group {} is outside the range [{lo}, {hi}] of its true interval volumes", enc_pairs(k)), &mut oracle);
                         }
                     }
-                    if interval_total <= target as u64 {
-                        if let Some((gid, rate, _)) = rows.iter().find(|r| r.1 != 1.0) {
-                            fail(format!("op {i}: interval saw {interval_total} <= target {target} but g{gid} has rate {rate:e}"), &mut oracle);
-                        }
-                    } else {
-                        run.sampled_intervals += 1;
-                        let budget: f64 = rows.iter().map(|r| r.2 as f64 * r.1 as f64).sum();
-                        if budget > t * (1.0 + 1e-4) {
-                            fail(format!("op {i}: sum(avg*rate) = {budget} exceeds target {target}"), &mut oracle);
-                        }
-                        for a in &rows {
-                            for b in &rows {
-                                if a.2 <= b.2 && (a.1 as f64) < b.1 as f64 * (1.0 - 1e-4) {
-                                    fail(format!("op {i}: g{} (avg {}) is rarer than g{} (avg {}) but has the lower rate {:e} < {:e}", a.0, a.2, b.0, b.2, a.1, b.1), &mut oracle);
-                                }
+                }
+                // property oracle on the implementation's rates
+                let t = target as f64;
+                for (k, rate, _) in &rows {
+                    if !(*rate > 0.0 && *rate <= 1.0) {
+                        fail(format!("op {i}: rate of {} is {rate:e}, outside (0,1]", enc_pairs(k)), &mut oracle);
+                    }
+                }
+                if interval_total <= target as u64 {
+                    if let Some((k, rate, _)) = rows.iter().find(|r| r.1 != 1.0) {
+                        fail(format!("op {i}: interval saw {interval_total} <= target {target} but {} has rate {rate:e}", enc_pairs(k)), &mut oracle);
+                    }
+                } else {
+                    run.sampled_intervals += 1;
+                    let budget: f64 = rows.iter().map(|r| r.2 as f64 * r.1 as f64).sum();
+                    if budget > t * (1.0 + 1e-4) {
+                        fail(format!("op {i}: sum(avg*rate) = {budget} exceeds target {target}"), &mut oracle);
+                    }
+                    for a in &rows {
+                        for b in &rows {
+                            if a.2 <= b.2 && (a.1 as f64) < b.1 as f64 * (1.0 - 1e-4) {
+                                fail(format!("op {i}: {} (avg {}) is rarer than {} (avg {}) but has the lower rate {:e} < {:e}", enc_pairs(&a.0), a.2, enc_pairs(&b.0), b.2, a.1, b.1), &mut oracle);
                             }
                         }
                     }
-                    rates = rows.iter().map(|r| (r.0, r.1)).collect();
-                    interval_total = 0;
-                    rows.sort_by_key(|r| r.0);
-                    request.push_str(&format!(" E{}", order.join(",")));
-                    answer.push(format!("R{}", rows.iter().map(|r| format!("{}:{}:{}", r.0, f32_bits(r.1), f32_bits(r.2))).collect::<Vec<_>>().join(";")));
                 }
+                rates = rows.iter().map(|r| (r.0.clone(), r.1)).collect();
+                interval_total = 0;
+                volume.clear();
+                rows.sort_by(|a, b| a.0.cmp(&b.0));
+                request.push_str(&format!(" E{}", order.join(",")));
+                answer.push(format!("R{}", rows.iter().map(|r| format!("{}:{}:{}", enc_pairs(&r.0), f32_bits(r.1), f32_bits(r.2))).collect::<Vec<_>>().join(";")));
             }
         }
-        if rec.plain_calls.get() != 0 {
-            fail("the unsampled Format::format of the inner formatter was called".into(), &mut oracle);
-        }
-        run.request = request;
-        run.answer = answer.join(" ");
-        run.oracle = oracle;
-        run
-    })
+    }
+    if rec.plain_calls.get() != 0 {
+        fail("the unsampled Format::format of the inner formatter was called".into(), &mut oracle);
+    }
+    run.request = request;
+    run.answer = answer.join(" ");
+    run.oracle = oracle;
+    run
 }
 
 /// strip the `noObs` field of the model's `R` tokens (not observable through the hooks)
@@ -721,45 +919,85 @@ fn gen_metrics(rng: &mut Rng) -> Vec<Vec<ObsK>> {
         .collect()
 }
 
-fn gen_cg(rng: &mut Rng, big: bool) -> (u32, Vec<CgOp>) {
-    let target = match rng.below(6) {
-        0 => 1,
-        1 => rng.range(2, 10) as u32,
-        2 => 100,
-        3 => 1500,
-        _ => rng.range(10, 3000) as u32,
+fn gen_cg(rng: &mut Rng, big: bool) -> (CgCfg, Vec<CgOp>) {
+    let ctor = match rng.below(20) {
+        0..=9 => Ctor::Rng,
+        10 | 11 => Ctor::Clock,
+        12..=14 => Ctor::Interval(*rng.pick(&[1u32, 15, 60, 3600, 4_000_000])),
+        15..=17 => Ctor::Build,
+        _ => Ctor::Ext,
     };
-    let ngroups = if rng.chance(1, 8) { rng.range(9, 40) } else { rng.range(1, 8) } as u32;
-    // base volume per group: some far above, some around, some far below target/ngroups
+    let validate = match rng.below(20) {
+        0..=7 => None,
+        8..=14 => Some(false),
+        _ => Some(true),
+    };
+    let target = if ctor == Ctor::Ext {
+        rng.range(1, 100) as u32
+    } else {
+        match rng.below(6) {
+            0 => 1,
+            1 => rng.range(2, 10) as u32,
+            2 => 100,
+            3 => 1500,
+            _ => rng.range(10, 3000) as u32,
+        }
+    };
+    let cfg = CgCfg { target, validate, ctor };
+    let target = cfg.effective_target();
+    let ngroups = if rng.chance(1, 8) { rng.range(9, 40) } else { rng.range(1, 8) } as usize;
+    // true groups: sets of 0..3 pairs with distinct keys (a few share keys/values so that only the value differs)
+    let mut groups: Vec<Pairs> = vec![];
+    while groups.len() < ngroups {
+        let np = *rng.pick(&[0usize, 1, 2, 2, 2, 3, 3]);
+        let mut keys = vec![1u32, 2, 3, 4];
+        rng.shuffle(&mut keys);
+        let mut g: Pairs = keys[..np].iter().map(|k| (*k, rng.range(1, if ngroups > 8 { 6 } else { 3 }) as u32)).collect();
+        g.sort();
+        if !groups.contains(&g) {
+            groups.push(g);
+        } else if np == 0 && groups.len() + 1 == ngroups {
+            break;
+        }
+    }
+    let ngroups = groups.len();
     let base: Vec<u32> = (0..ngroups)
         .map(|_| match rng.below(5) {
             0 => rng.range(1, 3) as u32,
-            1 => (target / ngroups).max(1),
+            1 => (target / ngroups as u32).max(1),
             2 => rng.range(1, 2 * target as u64) as u32,
             3 => rng.range(1, if big { 20 * target as u64 } else { 6 * target as u64 }) as u32,
             _ => rng.range(1, (target as u64 / 2).max(1)) as u32,
         })
         .collect();
+    // how an entry of group g spells it this time
+    let spell = |rng: &mut Rng, g: &Pairs| -> Pairs {
+        let mut p = g.clone();
+        if rng.chance(2, 3) {
+            rng.shuffle(&mut p);
+        }
+        p
+    };
     let intervals = if rng.chance(1, 10) { rng.range(20, 45) } else { rng.range(1, 12) };
     let mut ops = vec![];
     let mut alive: Vec<bool> = (0..ngroups).map(|_| rng.chance(3, 4)).collect();
     for _ in 0..intervals {
         let quiet = rng.chance(1, 10); // zero-volume interval
-        let mut gids: Vec<u32> = (0..ngroups).collect();
+        let mut gids: Vec<usize> = (0..ngroups).collect();
         rng.shuffle(&mut gids);
         for g in gids {
             if rng.chance(1, 8) {
-                alive[g as usize] = !alive[g as usize]; // appear / vanish
+                alive[g] = !alive[g]; // appear / vanish
             }
-            if quiet || !alive[g as usize] {
+            if quiet || !alive[g] {
                 continue;
             }
             let vol = match rng.below(8) {
-                0 => base[g as usize].saturating_mul(rng.range(5, 50) as u32).min(200_000), // burst
+                0 => base[g].saturating_mul(rng.range(5, 50) as u32).min(200_000), // burst
                 1 => 1,
                 2 => 0,
                 _ => {
-                    let b = base[g as usize] as u64;
+                    let b = base[g] as u64;
                     rng.range((b * 3 / 4).max(1), b * 5 / 4 + 1) as u32
                 }
             };
@@ -767,20 +1005,35 @@ fn gen_cg(rng: &mut Rng, big: bool) -> (u32, Vec<CgOp>) {
                 continue;
             }
             let singles = rng.below(4).min(vol as u64) as u32;
-            if vol > singles {
-                ops.push(CgOp::Bulk(g, vol - singles));
+            // the volume is split between up to three spellings of the same group
+            let mut rest = vol - singles;
+            let parts = rng.range(1, 3);
+            for j in 0..parts {
+                let c = if j + 1 == parts { rest } else { rng.below(rest as u64 + 1) as u32 };
+                rest -= c;
+                if c > 0 {
+                    ops.push(CgOp::Bulk(spell(rng, &groups[g]), c));
+                }
             }
             for _ in 0..singles {
+                let p = spell(rng, &groups[g]);
                 ops.push(match rng.below(4) {
-                    0 => CgOp::Adapt(g, rng.below(3) as u32),
-                    1 => CgOp::One(g, 0xffff_ffff),
-                    _ => CgOp::One(g, rng.next_u64() as u32),
+                    0 => CgOp::Adapt(p, rng.below(3) as u32),
+                    1 => CgOp::One(p, 0xffff_ffff),
+                    _ => CgOp::One(p, rng.next_u64() as u32),
                 });
+            }
+            // an entry that yields one key twice (the documentation forbids it)
+            if !groups[g].is_empty() && rng.chance(1, 12) {
+                let mut p = groups[g].clone();
+                p.push((p[0].0, 9));
+                rng.shuffle(&mut p);
+                ops.push(if rng.chance(1, 2) { CgOp::One(p, rng.next_u64() as u32) } else { CgOp::Bulk(p, rng.range(1, 5) as u32) });
             }
         }
         ops.push(CgOp::End);
     }
-    (target, ops)
+    (cfg, ops)
 }
 
 // ------------------------------------------------------------------------------------------------
@@ -790,7 +1043,7 @@ enum Case {
     Fx(u32, u32),
     Rc(u32, u64, Vec<Vec<ObsK>>),
     Ub(u32),
-    Cg(u32, Vec<CgOp>),
+    Cg(CgCfg, Vec<CgOp>),
 }
 
 impl Case {
@@ -800,7 +1053,7 @@ impl Case {
             Case::Fx(r, w) => format!("fx {r:08x} {w:08x}"),
             Case::Rc(r, w, ms) => format!("rc {r:08x} {w:016x} {}", if ms.is_empty() { "-".to_string() } else { enc_metrics(ms, false) }),
             Case::Ub(r) => format!("ub {r:08x}"),
-            Case::Cg(t, ops) => enc_cg(*t, ops),
+            Case::Cg(t, ops) => enc_cg(t, ops),
         }
     }
     fn decode(s: &str) -> Option<Case> {
@@ -936,7 +1189,7 @@ fn run_case(c: &Case, rep: &mut Report, rng: &mut Rng, search_only: bool) -> Opt
             }
             None
         }
-        Case::Cg(target, ops) => match run_cg(*target, ops) {
+        Case::Cg(target, ops) => match run_cg(target, ops) {
             Err(p) => {
                 rep.oracle_failure("sampling:congress", &enc, &format!("panic:{p}"), "CongressSample panicked");
                 None
@@ -948,15 +1201,19 @@ fn run_case(c: &Case, rep: &mut Report, rng: &mut Rng, search_only: bool) -> Opt
                     rep.bump_by("cg:intervals above target (sampling active)", run.sampled_intervals);
                     rep.bump_by("cg:single entries", ops.iter().filter(|o| matches!(o, CgOp::One(..) | CgOp::Adapt(..))).count() as u64);
                     rep.bump_by("cg:single entries at rate 1 (no draw taken)", run.draws_skipped_at_rate_one);
+                    rep.bump(&format!("cg:ctor {}", match target.ctor { Ctor::Rng => "builder+build_with_rng", Ctor::Clock => "builder+build_with_rng, real clock path", Ctor::Interval(_) => "builder+interval(..)+build_with_rng", Ctor::Build => "builder+build (thread rng)", Ctor::Ext => "sample_by_congress_at_fixed_entries_per_second" }));
+                    rep.bump(&format!("cg:validate_groups {} (effective {})", match target.validate { None => "default", Some(true) => "true", Some(false) => "false" }, target.effective_validate()));
+                    rep.bump_by("cg:duplicate-key entries that panicked (validate on)", run.panics);
+                    rep.bump_by("cg:entries yielding their pairs out of sorted order", run.reordered_entries);
                     rep.bump(&format!("cg:max groups {}", match run.max_groups { 0 => "0", 1 => "1", 2..=4 => "2-4", 5..=8 => "5-8", _ => "9+" }));
                 }
                 if let Some(what) = &run.oracle {
-                    let small = shrink_list(ops, |o| run_cg(*target, o).map(|r| r.oracle.is_some()).unwrap_or(true));
-                    let (what2, ans) = match run_cg(*target, &small) {
+                    let small = shrink_list(ops, |o| run_cg(target, o).map(|r| r.oracle.is_some()).unwrap_or(true));
+                    let (what2, ans) = match run_cg(target, &small) {
                         Ok(r) => (r.oracle.unwrap_or_else(|| what.clone()), r.answer),
                         Err(p) => (format!("panic: {p}"), "panic".into()),
                     };
-                    rep.oracle_failure("sampling:congress", &enc_cg(*target, &small), &ans, &what2);
+                    rep.oracle_failure("sampling:congress", &enc_cg(target, &small), &ans, &what2);
                 }
                 Some(Pending { component: "sampling/congress", case: enc, request: run.request, answer: run.answer })
             }
@@ -987,11 +1244,11 @@ fn neighbours(case: &str, rng: &mut Rng, n: usize) -> Vec<Case> {
                 for op in o.iter_mut() {
                     if let CgOp::Bulk(g, c) = op {
                         if rng.chance(1, 3) {
-                            *op = CgOp::Bulk(*g, (*c as u64 * rng.range(1, 4) / 2).max(1) as u32);
+                            *op = CgOp::Bulk(g.clone(), (*c as u64 * rng.range(1, 4) / 2).max(1) as u32);
                         }
                     }
                 }
-                Case::Cg(*t, o)
+                Case::Cg(t.clone(), o)
             }
         });
     }
@@ -1184,7 +1441,7 @@ fn main() {
             let line = rep.disagreements[i].case.split(" ## ").next().unwrap_or("").to_string();
             if let Some(Case::Cg(target, ops)) = Case::decode(&line) {
                 let differs = |o: &[CgOp]| -> Option<(String, String, String)> {
-                    let r = run_cg(target, o).ok()?;
+                    let r = run_cg(&target, o).ok()?;
                     let reply = run_driver(&args.driver, "sampling", &[r.request.clone()])?;
                     let m = canon_model_cg(&reply[0]);
                     if m != r.answer { Some((r.request, r.answer, m)) } else { None }
@@ -1192,7 +1449,7 @@ fn main() {
                 let small = shrink_list(&ops, |o| differs(o).is_some());
                 if let Some((req, a, m)) = differs(&small) {
                     let d = &mut rep.disagreements[i];
-                    d.case = format!("{} ## model-request: {}", enc_cg(target, &small), req);
+                    d.case = format!("{} ## model-request: {}", enc_cg(&target, &small), req);
                     d.impl_out = a;
                     d.model_out = m;
                     rep.disagreements.swap(0, i);
